@@ -71,7 +71,7 @@ def trap_stub(ctx, tE, tS, log, after=None):
 
 
 def pair_facts(w, cpre, tE, tS, th, goal_t, yj, xjk, y_node=None):
-    """Iterate facts for the LAST adjacent pair of the lists built by
+    r"""Iterate facts for the LAST adjacent pair of the lists built by
     `_attractor_under_assumptions` (all that the loop touches in one round):
 
       x[-1][k] == (h_k /\ CPre x[-1][k]) \/ CPre(y[-2]) \/ goal      (y[-2] := FALSE for a single entry)
